@@ -205,6 +205,18 @@ def run(prog, rep):
             """(collection, True) when ``it`` ranges over the interfaces of the element AND over their sub-interfaces:
             [x for top in <own interfaces> for x in (top,) + tuple(top.interface_list)] and equivalent forms"""
             e = expand(it, env)
+            if isinstance(e, ast.Call) and isinstance(e.func, ast.Name) and e.func.id in ('list', 'tuple') and len(e.args) == 1 and not e.keywords:
+                e = e.args[0]
+            # chain.from_iterable(<E> for top in <X>) ranges over the same elements as (x for top in <X> for x in <E>)
+            if isinstance(e, ast.Call) and (attr_chain(e.func) or [None])[-2:] == ['chain', 'from_iterable'] and len(e.args) == 1 and \
+                    isinstance(e.args[0], (ast.ListComp, ast.GeneratorExp)) and len(e.args[0].generators) == 1:
+                inner = e.args[0]
+                e = ast.GeneratorExp(elt=ast.Name(id='__flat', ctx=ast.Load()),
+                                     generators=[inner.generators[0],
+                                                 ast.comprehension(target=ast.Name(id='__flat', ctx=ast.Store()), iter=inner.elt, ifs=[], is_async=0)])
+                for n_ in ast.walk(e):
+                    for ch_ in ast.iter_child_nodes(n_):
+                        ch_._parent = n_
             if isinstance(e, (ast.ListComp, ast.GeneratorExp)) and len(e.generators) == 2 and isinstance(e.generators[0].target, ast.Name):
                 base_ = own_interfaces(e.generators[0].iter)
                 top_ = e.generators[0].target.id
